@@ -111,7 +111,20 @@ func blockedWorkers() (workers, blocked int, site, excerpt string) {
 			continue
 		}
 		workers++
-		if strings.Contains(g, "sync.(*Mutex).Lock") || strings.Contains(g, "sync.(*RWMutex).Lock") || strings.Contains(g, "sync.(*RWMutex).RLock") {
+		// the goroutine's wait state is in its header line: "goroutine 12 [chan receive, 1 minutes]:"
+		state := ""
+		if i := strings.Index(g, "["); i >= 0 {
+			if j := strings.Index(g[i:], "]"); j > 0 {
+				state = strings.SplitN(g[i+1:i+j], ",", 2)[0]
+			}
+		}
+		parked := false
+		switch state {
+		case "chan receive", "chan send", "select", "select (no cases)", "sync.Mutex.Lock", "sync.RWMutex.Lock", "sync.RWMutex.RLock", "semacquire", "sync.Cond.Wait", "sync.WaitGroup.Wait", "chan receive (nil chan)", "chan send (nil chan)":
+			// waiting for another goroutine - and the library starts none of its own
+			parked = strings.Contains(g, "github.com/ipfs/go-unixfsnode")
+		}
+		if parked {
 			blocked++
 			if site == "" {
 				for _, ln := range strings.Split(g, "\n") {
@@ -186,7 +199,7 @@ func runRound(c *mon.Case, node ipld.Node, G int, hs *hookState, seed int64, wor
 		if unfinished > 0 && w1 >= unfinished && b1 == w1 && progress() == last {
 			res.deadlock = true
 			res.deadSite = site
-			res.deadMsg = fmt.Sprintf("deadlock: %d of %d goroutines have returned, each of the other %d is parked in a mutex acquisition inside the library (%s) and no operation has completed for %d ms; one of them: %s", G-unfinished, G, unfinished, site, still*250, excerpt)
+			res.deadMsg = fmt.Sprintf("deadlock: %d of %d goroutines have returned, each of the other %d is parked inside the library waiting for a lock, a channel or a condition (%s) and no operation has completed for %d ms; one of them: %s", G-unfinished, G, unfinished, site, still*250, excerpt)
 			return res
 		}
 		if waited > 4*60*20 {
@@ -219,6 +232,68 @@ func TestC17(t *testing.T) {
 		Fanout, N int
 		Warm      bool
 		Family    string
+	}
+	// hundreds of goroutines on one deep cold directory (limits that only bite under load)
+	for k := 0; k < 2; k++ {
+		k := k
+		r.Case(fmt.Sprintf("dir-many-goroutines/%d", k), map[string]any{"fanout": 8, "entries": 600, "goroutines": 300, "rounds": 4}, func(c *mon.Case) {
+			st := store.New()
+			names := namesFor(c, dirCase{Family: "ascii", N: 600})
+			entries, model, _ := childEntries(st, names)
+			l, _, err := builder.BuildUnixFSShardedDirectory(8, multihash.MURMUR3X64_64, entries, st.LinkSystem(false))
+			if err != nil {
+				c.Harness("build: %v", err)
+				return
+			}
+			ls := st.LinkSystem(true)
+			raw, err := loadRaw(ls, linkCid(l))
+			if err != nil {
+				c.Harness("load: %v", err)
+				return
+			}
+			for round := 0; round < 4; round++ {
+				hs := &hookState{seed: c.Seed + uint64(round), inject: true}
+				hamt.SetVerifHook(hs.at)
+				node, err := reify(ls, raw)
+				if err != nil {
+					c.Violation("C17|reify", "%v", err)
+					return
+				}
+				res := runRound(c, node, 300, hs, int64(c.Seed)+int64(round), func(g int, rr *rand.Rand, node ipld.Node, res *c17Result) {
+					for i := 0; i < 6; i++ {
+						atomic.AddInt64(&res.ops, 1)
+						name := names[rr.Intn(len(names))]
+						v, err := node.LookupByString(name)
+						if err != nil {
+							res.diff("LookupByString(%q) of a member failed among 300 goroutines: %v", name, err)
+							continue
+						}
+						if got, e := asCid(v); e != nil || !got.Equals(model[name]) {
+							res.diff("LookupByString(%q) returned %v among 300 goroutines, %v alone", name, got, model[name])
+						}
+					}
+				})
+				hamt.SetVerifHook(nil)
+				c.Count("rounds", 1)
+				c.Count("ops_compared", res.ops)
+				c.Count("overlapped_rounds", 1)
+				if res.stuck {
+					c.Inconclusive("round %d did not finish within the watchdog and is not a provable deadlock", round)
+					return
+				}
+				if res.deadlock {
+					c.Violation("C17|deadlock|"+res.deadSite, "300 goroutines looking up members of one cold fanout-8 directory, round %d: %s", round, res.deadMsg)
+					return
+				}
+				for _, dmsg := range res.diffs {
+					c.Violation("C17|result-differs|dir", "300 goroutines, round %d: %s", round, dmsg)
+				}
+				c.Sig(fmt.Sprintf("dir-many-goroutines|%s", hs.hash()), true)
+				if len(res.diffs) > 0 {
+					return
+				}
+			}
+		})
 	}
 	dirs := []dirCfg{{8, 400, false, "ascii"}, {8, 400, true, "ascii"}, {16, 600, false, "mixed"}, {8, 2000, false, "ascii"}, {256, 3000, false, "ascii"}, {8, 6, false, "crafted"}, {1024, 4000, true, "mixed"}, {32, 300, false, "hexprefix"}}
 	// link lists with nameless and repeated links, listed and looked up by several goroutines - these
